@@ -223,12 +223,26 @@ class CtrSys(HSystem):
         return (o['cfg'], canon(o['o'].counter), canon(o['o'].pad))
 
     def events(self, o):
-        return [('setup', k) for k in self.cfgs] + [('enc', 0), ('enc', 1), ('enc', 2 * self.n + 1), ('dec', self.n + 3)]
+        return [('setup', k) for k in ('A', 'B', 'C')] + [('setup-default',), ('setup-nonce-only',)] + [('enc', 0), ('enc', 1), ('enc', 2 * self.n + 1), ('dec', self.n + 3)]
 
     def apply(self, o, ev):
         if ev[0] == 'setup':
             o['cfg'] = ev[1]
             o['o'].counter.setup(*self.cfgs[ev[1]])
+            o['exp'] = None
+            return None
+        if ev[0] in ('setup-default', 'setup-nonce-only'):
+            # setup() without arguments / with a nonce only: the documented defaults are all-zero halves
+            h = self.n // 2
+            z = bytes(self.n - h), bytes(h)
+            if ev[0] == 'setup-default':
+                o['o'].counter.setup()
+                self.cfgs['Z'] = z
+                o['cfg'] = 'Z'
+            else:
+                o['o'].counter.setup(nonce=iv_of('ramp', self.n - h))
+                self.cfgs['N'] = (iv_of('ramp', self.n - h), bytes(h))
+                o['cfg'] = 'N'
             o['exp'] = None
             return None
         L = ev[1]
@@ -241,7 +255,7 @@ class CtrSys(HSystem):
         return o['o'].enc(M) if ev[0] == 'enc' else o['o'].dec(M)
 
     def judge(self, ctx, hist, ev, res, o):
-        if ev[0] == 'setup':
+        if ev[0].startswith('setup'):
             ctx.eq('C05/CTR/counter-setup', res[0], 'ok')
         else:
             ctx.eq('C05/CTR/%s-after-counter-setup-history' % ev[0], res, ('ok', o['exp']))
